@@ -4,9 +4,11 @@ CONSTANTS
   RefKind = 3
   MaxQ = 2
   WithEvidence = TRUE
+  WithEvv = FALSE
   ReuseChecksCB = TRUE
   ReuseChecksCN = TRUE
   SubtractBroken = TRUE
+  EvvSigned = TRUE
 CHECK_DEADLOCK FALSE
 INVARIANT MeaningPreserved
 INVARIANT TargetAcyclic
